@@ -13,6 +13,9 @@ claimed = {
  "C01": dict(
    text="Bounded symbolic model checking of the real ring kernels from go/ssa: scalar reductions (MRed/BRed/MForm/IMForm/CRed + lazy forms) for all 64-bit inputs per modulus of a stated set; all 37 unrolled vector kernels (lane discipline on 16 lanes + lane semantics); forward/inverse NTT (N=16,32; thorough to 128) by stage-cut lemmas whose concrete stage matrices compose to the definition matrix; every obligation is an SMT query (unsat for all values inside the bound).",
    ref="DESIGN.md §6-C01", technique="SSA symbolic execution + SMT (LIA with wrap elimination / BV), stage-cut inductive lemmas for the NTT"),
+ "C08": dict(
+   text="Stream-level symbolic execution of the real (de)serialisation code (ring.Poly through structs.Matrix/Vector and utils/buffer): round trip with all payload words symbolic through WriteTo/ReadFrom and MarshalBinary/UnmarshalBinary into fresh and reused receivers, announced size, every truncation point, corrupted length fields (classes small / negative / huge) with the allocation obligation on every symbolic make.",
+   ref="DESIGN.md §6-C08", technique="SSA symbolic execution of the codecs over symbolic byte streams + SMT (BV); path forking on stream-dependent branches; native replay"),
  "C19": dict(
    text="Symbolic execution of rlwe.CheckModuli with a symbolic candidate modulus and an arbitrary primality oracle (solver characterises every accepted size), plus boundary witnesses (real primes) checked against the 61-bit size the arithmetic layer supports (8q<=2^64, from the C01 stage invariants).",
    ref="DESIGN.md §6-C19", technique="SSA symbolic execution + SMT (BV) over the acceptance predicates; concrete boundary witnesses replayed natively"),
